@@ -12,7 +12,7 @@ from common import (V, pair_faults, EXC_ALL, ebb_spec, PORT_NAMES, mk_ops, lcall
 
 PROP = 'C07'
 LEVEL = 'exploration'
-N_QUICK = 16000
+N_QUICK = 40000
 N_THOROUGH = 2000000
 WALL_QUICK = 100
 WALL_THOROUGH = 1500
@@ -250,11 +250,12 @@ def observe(scn, hist, st):
 
 # ---------------------------------------------------------------------------
 
-def _world(n=1, err_ok=False, fw=(2, 8, 1), style='linux', nicks=None):
+def _world(n=1, err_ok=False, fw=(2, 8, 1), style='linux', nicks=None, eol='crlf'):
     boards = []
     for i in range(n):
         nick = 'Leg%d' % i if nicks is None else nicks[i]
         spec = ebb_spec(PORT_NAMES[style][i], fw=fw, nick=nick, style=style)
+        spec['eol'] = eol
         spec['err_ok'] = err_ok
         spec['prior'] = {'ram': [11 + i] + [0] * 31, 'steps': [100 + i, -200 - i]}
         boards.append(spec)
@@ -286,6 +287,11 @@ def sweep_cells(tier):
         cells.append(['query', text, False, True])
     for k in range(len(AFTER_TIMEOUT)):
         cells.append(['_after_timeout', k])
+    # the same requests against boards whose lines end LF only / whose data lines end LF CR
+    for c in list(cells):
+        if len(c) == 4 and c[2] is False and c[3] is True:
+            cells.append(c + ['lf'])
+            cells.append(c + ['nlcr'])
     return cells
 
 
@@ -327,7 +333,11 @@ def sweep_expand(cell):
             yield scn
         return
     kind, text, err_ok, verbose = cell[:4]
-    world = _world(1, err_ok, nicks=[{'blank': ''}.get(cell[4], cell[4])] if len(cell) > 4 else None)
+    eol = 'crlf'
+    if len(cell) > 4 and cell[4] in ('lf', 'nlcr'):
+        eol = cell[4]
+        cell = cell[:4]
+    world = _world(1, err_ok, nicks=[{'blank': ''}.get(cell[4], cell[4])] if len(cell) > 4 else None, eol=eol)
     port = world['boards'][0]['port']
     ops = [{'op': 'lopen', 'slot': 0, 'port': port},
            lcall('ebb_serial.command', [{'slot': 0}, 'SL,77\r']),
@@ -361,7 +371,8 @@ def gen(rng, idx):
     style = rng.choice(['mac', 'linux', 'win'])
     fw = rng.choice([(2, 5, 5), (2, 6, 2), (2, 8, 1), (3, 0, 2)])
     world = _world(nb, err_ok=rng.random() < 0.5, fw=fw, style=style,
-                   nicks=[rng.choice(['', 'Leg%d' % i, ' pad ', 'OK', 'ok', '{n}', 'Err']) for i in range(nb)])
+                   nicks=[rng.choice(['', 'Leg%d' % i, ' pad ', 'OK', 'ok', '{n}', 'Err']) for i in range(nb)],
+                   eol=rng.choice(['crlf', 'crlf', 'lf', 'nlcr']))
     ops = []
     for i in range(nb):
         ops.append({'op': 'lopen', 'slot': i, 'port': world['boards'][i]['port']})
